@@ -20,6 +20,7 @@ CONSTANTS
   DTs = {1}
   Jumps <- JumpsLadder
   GenVersions = {0, 1, 2, 3}
+  VSet = 0
   MaxHeight = 4300
   FocusVals = {2}
 
